@@ -60,7 +60,18 @@ func c12Program(run *common.Run, prog int, engine string, idx int) {
 	var sawTrue, sawFalse, sawReject, sawEmptyMatch bool
 	keys := []string{"a", "a\x00", "a\nb", "ab"}
 	n := r.Range(15, 40)
+	// every second program is interleaved with unrelated requests (incl. CheckAndMutateRow with other predicates) for a
+	// second, wide table of the same server
+	var nz *noise
+	nzr := run.Rand("C12.noise", prog)
+	if prog%2 == 1 {
+		nz = newNoise(srv)
+		run.Count("programs_interleaved_with_traffic_for_another_table", 1)
+	}
 	for s := 0; s < n; s++ {
+		if nz != nil && nzr.Chance(1, 2) {
+			nz.send(nzr, srv)
+		}
 		key := common.Pick(r, keys)
 		if r.Chance(1, 10) {
 			// drop or re-create family g
